@@ -126,7 +126,7 @@ func (sh *c06Shadow) genMeta(g *Gen, first bool) {
 	minisr := 1
 	if len(isr) > 0 {
 		minisr = g.R.Range(1, len(isr))
-		if g.R.Chance(50) && len(isr) >= 2 {
+		if g.R.Chance(65) && len(isr) >= 2 {
 			minisr = len(isr)/2 + 1
 		}
 	}
@@ -212,7 +212,7 @@ func (sh *c06Shadow) genPropose(g *Gen) {
 	if g.R.Chance(12) {
 		op := sh.freshOrReused(g)
 		mode := g.R.Intn(3)
-		nrec := g.R.Pick(5, 60, 25, 10)
+		nrec := g.R.Pick(5, 40, 30, 17, 8)
 		g.Count("prop1:nrec=" + strconv.Itoa(min(nrec, 2)))
 		g.Op("prop1", "%d %d %d", op, mode, nrec)
 		if sh.canPropose() && nrec > 0 {
@@ -236,8 +236,11 @@ func (sh *c06Shadow) genPropose(g *Gen) {
 			op = ops[g.R.Intn(len(ops))]
 			g.Count("prop:duplicate-op-in-batch")
 		}
-		mode := g.R.Pick(15, 50, 35)
-		nrec := g.R.Pick(4, 60, 26, 10)
+		mode := g.R.Pick(15, 55, 30)
+		nrec := g.R.Pick(4, 34, 30, 22, 10)
+		if nrec >= 2 && mode != 2 {
+			g.Count("prop:multi-record-quorum-waiter")
+		}
 		if nrec == 0 {
 			g.Count("prop:empty-waiter")
 		}
@@ -292,7 +295,10 @@ func (sh *c06Shadow) follower(g *Gen) int {
 }
 
 func (sh *c06Shadow) offset(g *Gen, what string) int {
-	switch g.R.Pick(30, 45, 7, 5, 5, 8) {
+	switch g.R.Pick(20, 28, 7, 5, 5, 5, 30) {
+	case 6: // strictly inside the range of the most recently stored batch / waiter
+		g.Count(what + ":offset-inside-last-batch")
+		return max(sh.leo-g.R.Range(1, 3), 0)
 	case 1:
 		g.Count(what + ":offset=leo-estimate")
 		return sh.leo
@@ -338,7 +344,7 @@ func genC06(g *Gen) {
 			if sh.inflight {
 				wProp, wStored, wQC = 6, 40, 12
 			}
-			wMeta, wAck := 6, 22
+			wMeta, wAck := 6, 26
 			if sh.leader != sh.local || !(sh.status == 1 || sh.status == 2) {
 				// not a serving leader: a few rejected calls, then metadata moves on
 				wProp, wStored, wQC, wMeta, wAck = 5, 3, 2, 30, 6
